@@ -156,6 +156,7 @@ def cases(tier):
             out.append(("linear", backend, [first], 3 if tier == "quick" else 4))
         # several workers configured, but the link to the notify server is down (as in the first seconds after start-up)
         out.append(("notifier_down", backend, ["reg"], 2))
+    out += sched_cases(tier)
     return out
 
 
@@ -230,7 +231,137 @@ def run_notifier_down(case):
             "sample": {"case": "notifier_down", "backend": backend, "submissions": n}}
 
 
+# ---------------------------------------------------------------------------------------------------
+# Two connections at once (SCHED): a forged copy and the genuine event carrying the same id; the same event from two connections.
+S_GEN = make_event("A", 1, 700, [["t", "race"]], "submitted on two connections at once")
+S_FORGED = dict(S_GEN, sig=S_GEN["sig"][:-2] + ("00" if S_GEN["sig"][-2:] != "00" else "01"))
+S_OTHER = make_event("B", 1, 701, [], "an unrelated event")
+SCHED = {
+    "forged_then_genuine": [("c1", ["REQ", "x", {"kinds": [1]}]), ("c2", ["EVENT", S_FORGED]), ("c3", ["EVENT", S_GEN])],
+    "genuine_then_forged": [("c1", ["REQ", "x", {"kinds": [1]}]), ("c2", ["EVENT", S_GEN]), ("c3", ["EVENT", S_FORGED])],
+    "same_event_twice": [("c1", ["REQ", "x", {"kinds": [1]}]), ("c2", ["EVENT", S_GEN]), ("c3", ["EVENT", S_GEN])],
+    "forged_genuine_other": [("c2", ["EVENT", S_FORGED]), ("c3", ["EVENT", S_GEN]), ("c2", ["EVENT", S_OTHER])],
+}
+
+
+def sched_scenario(name, backend):
+    from ..explorer import Scenario
+
+    base, _, policy = name.partition("@")
+    return Scenario("%s|%s" % (name, backend), backend, [("c1", "1.1.1.1"), ("c2", "2.2.2.2"), ("c3", "3.3.3.3")], SCHED[base],
+                    storage_options={"stats_interval": 1e15}, horizon=30.0, policy=policy or "actor")
+
+
+def sched_cases(tier):
+    from .. import explorer, env
+
+    env.boot()
+    out = []
+    for backend in ("sql", "kv"):
+        for name in [n + sfx for n in SCHED for sfx in ("", "@fair")]:
+            out.append(("sched", backend, [name], ()))
+            firsts, npts = explorer.first_level(sched_scenario(name, backend))
+            for p in firsts:
+                out.append(("sched", backend, [name], tuple(p)))
+    return out
+
+
+def run_sched(case, tier="quick"):
+    import json
+    from .. import explorer
+
+    _, backend, (name,), prefix = case
+    scn = sched_scenario(name, backend)
+    base = name.partition("@")[0]
+    viol = []
+    cid = "sched|%s|%s" % (name, backend)
+    stats = {"n": 0, "points": 0}
+    outcomes = set()
+
+    def on_exec(x):
+        w = x.world
+        sig = "sched=%s" % explorer.rle(x.choices)
+        stats["n"] += 1
+        stats["points"] += len(x.points)
+        verdicts = []
+        for cn, fr in SCHED[base]:
+            if fr[0] != "EVENT":
+                continue
+            c = w.conns[cn]
+            oks = []
+            for k, _, p in c.transcript:
+                if k == "send":
+                    try:
+                        m = json.loads(p)
+                    except ValueError:
+                        continue
+                    if m[0] == "OK":
+                        oks.append(m)
+            verdicts.append((cn, fr[1], oks))
+        stored = store.decode_store(backend, w.dump())
+        per_conn = {}
+        for cn, ev, oks in verdicts:
+            per_conn.setdefault(cn, []).append(ev)
+        for cn, evs in per_conn.items():
+            n_ok = len(next(oks for c2, e2, oks in verdicts if c2 == cn))
+            if n_ok != len(evs):
+                viol.append({"case": cid, "clause": "exactly-one-ok", "sig": sig + "|" + cn,
+                             "detail": "%s sent %d EVENT frames and received %d OK frames | %s schedule=%s" % (cn, len(evs), n_ok, scn.name, x.choices)})
+        any_true = False
+        for cn, ev, oks in verdicts:
+            genuine = ev is S_GEN or ev is S_OTHER
+            if ev is S_FORGED:
+                # the forged copy shares its id with the genuine event: its connection's OK must be false
+                if any(m[2] is True for m in oks) and all(e is S_FORGED for e in per_conn[cn]):
+                    viol.append({"case": cid, "clause": "true-means-stored", "sig": sig + "|forged",
+                                 "detail": "the forged copy was acknowledged true | %s schedule=%s" % (scn.name, x.choices)})
+            elif genuine and len(per_conn[cn]) == 1:
+                t = [m for m in oks if m[2] is True]
+                f = [m for m in oks if m[2] is False]
+                any_true = any_true or bool(t)
+                if f and not str(f[0][3]).startswith("duplicate"):
+                    viol.append({"case": cid, "clause": "valid-never-refused", "sig": sig + "|" + cn,
+                                 "detail": "the genuine event was refused with %r while a forged copy / another copy was in flight | %s schedule=%s" % (
+                                     f[0][3], scn.name, x.choices)})
+                if f and str(f[0][3]).startswith("duplicate") and ev["id"] not in stored:
+                    viol.append({"case": cid, "clause": "false-leaves-no-trace", "sig": sig + "|dup|" + cn,
+                                 "detail": "answered duplicate but the event is not stored | %s schedule=%s" % (scn.name, x.choices)})
+                if t and ev["id"] not in stored:
+                    viol.append({"case": cid, "clause": "true-means-stored", "sig": sig + "|" + cn,
+                                 "detail": "OK true but the event is not retrievable afterwards | %s schedule=%s" % (scn.name, x.choices)})
+        if S_GEN["id"] in stored and stored[S_GEN["id"]].get("sig") != S_GEN["sig"]:
+            viol.append({"case": cid, "clause": "false-leaves-no-trace", "sig": sig + "|forged-stored",
+                         "detail": "the stored copy carries the forged signature | %s schedule=%s" % (scn.name, x.choices)})
+        # not broadcast again: after the subscriber's EOSE at most one live push of the event
+        if "c1" in w.conns and any(cn == "c1" for cn, _ in SCHED[base]):
+            c1 = w.conns["c1"]
+            eose = next((q for k, q, p in c1.transcript if k == "send" and p.startswith('["EOSE"')), None)
+            late = [q for k, q, p in c1.transcript if k == "send" and p.startswith('["EVENT"') and S_GEN["id"] in p and eose is not None and q > eose]
+            allp = [q for k, q, p in c1.transcript if k == "send" and p.startswith('["EVENT"') and S_GEN["id"] in p]
+            if len(late) > 1 or len(allp) > 2:
+                viol.append({"case": cid, "clause": "resubmission-not-broadcast-again", "sig": sig,
+                             "detail": "the subscriber received the event %d times (%d after its EOSE) | %s schedule=%s" % (len(allp), len(late), scn.name, x.choices)})
+        if w.loop.handler_errors:
+            viol.append({"case": cid, "clause": "no-stray-exceptions", "sig": sig, "detail": repr(w.loop.handler_errors[:2])})
+        outcomes.add(json.dumps([[m[2] for m in oks] for _, _, oks in verdicts]))
+        for v in viol:
+            v.setdefault("exact", {"scenario": name, "backend": backend, "choices": list(x.choices)})
+
+    # the two-copies scenario is explored one deviation deeper (the second duplicate check overtaking the first insert needs two)
+    deeper = 1 if base == "same_event_twice" else 0
+    if not prefix:
+        explorer.explore(scn, 0, on_exec)
+    else:
+        explorer.explore(scn, deeper, on_exec, root_prefix=list(prefix))
+    return {"id": "%s|p=%s" % (cid, explorer.rle(list(prefix))), "viol": viol, "outcome": sorted(outcomes), "outcome_is_set": True,
+            "evals": stats["n"], "states": stats["points"], "transitions": stats["points"], "nontrivial": True, "desc": describe(case),
+            "extra": {"sched_executions": stats["n"], "sched_choice_points": stats["points"]},
+            "sample": {"mode": "sched", "scenario": scn.name, "prefix": list(prefix), "executions": stats["n"]}}
+
+
 def run_case(case):
+    if case[0] == "sched":
+        return run_sched(case)
     if case[0] == "notifier_down":
         return run_notifier_down(case)
     if case[0] == "linear":
@@ -255,3 +386,18 @@ def run_case(case):
     return {"id": "conformance|%s" % first, "viol": viol, "outcome": None, "evals": n, "states": 0, "transitions": 0, "nontrivial": True,
             "desc": describe(case), "extra": {"aiosqlite_conformance_sequences": n},
             "sample": {"case": "conformance", "first": first, "sequences": n}}
+
+
+_base_coverage = CHECK.coverage
+
+
+def coverage(tier, agg):
+    c = _base_coverage(tier, agg)
+    c["rule"] += (" | same-connection histories: all sequences of <= %d submissions over %r on ONE connection without restoring the store; "
+                  "notifier-down: several workers configured, link to the notify server down; conformance: the SQLite shim against the real aiosqlite "
+                  "driver on all 3-step sequences; sched: scenarios %s (a forged copy and the genuine event with the same id on two connections, the "
+                  "same event on two connections, with a subscriber) under both base schedules with <= 1 deviation (<= 2 for the two-copies scenario): "
+                  "one OK per EVENT, the forged copy false, the genuine event never refused except as a stored duplicate, true means stored, the stored "
+                  "copy is the genuine one, at most one live push after the subscriber's EOSE." % (3 if tier == "quick" else 4, LINEAR, sorted(SCHED)))
+    return c
+
